@@ -8,5 +8,6 @@ Extraction "model.ml"
   rate_core gamma_default
   cdf pdf icdf v w vt wt
   create_rating model_rating deepcopy rating_compare ordinal hash_key
+  model_init calculate_team_ratings helper_c helper_sum_q helper_a
   rank_data arg_sort unwind ladder_pairs calc_rankings rows reverse_ranks
   key_leb key_ltb key_neg isort py_sum reduce_add.
